@@ -445,7 +445,7 @@ def generate():
                 "Definition dispatch_exact_extract := %s.\nDefinition plumbing_canonical := %s.\n"
                 % (idx, cfg["exact"], cfg["tau"], off, coq_bool(width), "nE" if wmodel else "ntrans J", coq_bool(interp), tn, coq_bool(disp),
                    coq_bool(plumbing)))
-    except Unsupported as u:
+    except (Unsupported, ValueError, TypeError, IndexError, KeyError, AttributeError, AssertionError, RecursionError) as u:   # any surprise in the source = fail closed
         return HEAD + failed("GridGen", str(u)) + DEFAULTS
 
 
